@@ -1,4 +1,7 @@
 import EncodingRs.Thm.C02
 import EncodingRs.Thm.C06
 import EncodingRs.Thm.C08
+import EncodingRs.Thm.C09
 import EncodingRs.Thm.C13
+import EncodingRs.Thm.C18
+import EncodingRs.Thm.C19
